@@ -32,12 +32,12 @@ pub open spec fn route(t: Seq<u8>) -> Route {
 }
 
 /// the event as the processor hands it on: origintype is the SCXML processor, origin defaults to the sender's location;
-/// name, sendid, invokeid and the payload are untouched
-pub open spec fn stamped(e0: Event, e1: Event) -> bool {
+/// (`loc`, so that the receiver can reply to the sender); name, sendid, invokeid and the payload are untouched
+pub open spec fn stamped(e0: Event, e1: Event, loc: String) -> bool {
     e1.name == e0.name && e1.etype == e0.etype && e1.sendid == e0.sendid && e1.invoke_id == e0.invoke_id
         && e1.param_values == e0.param_values && e1.content == e0.content
         && e1.origin_type.is_some() && e1.origin_type.unwrap()@ == SCXML_EVENT_PROCESSOR@
-        && e1.origin.is_some() && (e0.origin.is_some() ==> e1.origin == e0.origin)
+        && e1.origin.is_some() && (e0.origin.is_some() ==> e1.origin == e0.origin) && (e0.origin.is_none() ==> e1.origin == Some(loc))
 }
 
 pub open spec fn is_error_communication(err: Event, about: Event) -> bool {
